@@ -296,8 +296,9 @@ func descriptionUnchanged(name string, desc *Description) bool {
 func GetDescription(name string) (*Description, error) {
 	g := Get(name)
 	if g != nil {
-		if descriptionUnchanged(name, g.description) {
-			return g.description, nil
+		desc := g.Description()
+		if descriptionUnchanged(name, desc) {
+			return desc, nil
 		}
 	}
 
